@@ -142,6 +142,8 @@ pub struct ImageSpec {
     pub min_file_clusters: usize,
     /// reserve this many reftable clusters (0 = minimal)
     pub reftable_clusters: usize,
+    /// host cluster indices the sequential allocator leaves free
+    pub skip_host: Vec<usize>,
 }
 
 impl ImageSpec {
@@ -163,6 +165,7 @@ impl ImageSpec {
             ragged_end: false,
             min_file_clusters: 0,
             reftable_clusters: 0,
+            skip_host: vec![],
         }
     }
     pub fn cs(&self) -> usize {
@@ -264,7 +267,7 @@ pub fn build_image(spec: &ImageSpec) -> Built {
     let mut rt_clusters = spec.reftable_clusters.max(1);
     loop {
         let items = other + rt_clusters + rb_count;
-        let total = (items + gap * items).max(spec.min_file_clusters);
+        let total = (items + gap * items + spec.skip_host.len()).max(spec.min_file_clusters);
         let need_rb = (total + rbe - 1) / rbe;
         let need_rt = ((need_rb * 8 + cs - 1) / cs).max(spec.reftable_clusters.max(1));
         if need_rb <= rb_count && need_rt <= rt_clusters {
@@ -275,7 +278,12 @@ pub fn build_image(spec: &ImageSpec) -> Built {
     }
 
     let mut next = 1usize; // cluster 0 = header
+    let skip = spec.skip_host.clone();
     let mut alloc = |n: usize| -> usize {
+        // first position where n consecutive clusters avoid the skip list
+        while (next..next + n).any(|c| skip.contains(&c)) {
+            next += 1;
+        }
         let s = next;
         next += n + gap;
         s
